@@ -8,10 +8,13 @@
 package wsim
 
 import (
+	"bytes"
+	"encoding/json"
 	"fmt"
 	"runtime"
 	"sort"
 	"strings"
+	"sync"
 	"time"
 
 	"github.com/bytom/bytom/account"
@@ -22,6 +25,8 @@ import (
 	"github.com/bytom/bytom/crypto"
 	"github.com/bytom/bytom/crypto/ed25519/chainkd"
 	dbm "github.com/bytom/bytom/database/leveldb"
+	"github.com/bytom/bytom/event"
+	"github.com/bytom/bytom/protocol"
 	"github.com/bytom/bytom/protocol/bc"
 	"github.com/bytom/bytom/protocol/bc/types"
 	"github.com/bytom/bytom/protocol/vm/vmutil"
@@ -39,8 +44,18 @@ const (
 	PB1       = 4 // account B, address 1
 	PForeign  = 5 // P2WPKH of a key no account holds (segwit, not owned)
 	PForeignS = 6 // P2WSH of the script OP_TRUE, not registered (segwit, not owned, spendable without a key)
-	NProgs    = 7
+	// programs of the accounts' keys that a wallet registers only LATER in a case ("rescan" stream:
+	// an address handed out elsewhere, then CreateAddress + RescanBlocks); never used by the other
+	// streams and not part of the model's vocabulary
+	PA3    = 7 // account A, address 3
+	PB2    = 8 // account B, address 2
+	PA4    = 9 // account A, address 4
+	NProgs = 10
 )
+
+// LatePrograms in the order in which a wallet can learn them per account (CreateAddress hands out
+// the next index of the account).
+var LatePrograms = []int{PA3, PB2, PA4}
 
 // ProgInfo describes one control program of the case vocabulary.
 type ProgInfo struct {
@@ -51,6 +66,7 @@ type ProgInfo struct {
 	Acct   int // 1 = A, 2 = B (0: not owned)
 	Index  uint64
 	Change bool
+	Late   bool          // registered by a wallet only when the case says so (WalletNode.Learn)
 	key    *chainkd.XPrv // signing key (P2WPKH programs we can spend)
 }
 
@@ -135,6 +151,12 @@ func NewEnv(sched Schedule) *Env {
 	derive(PA2, 1, 2, false)
 	derive(PAChange, 1, 1, true)
 	derive(PB1, 2, 1, false)
+	derive(PA3, 1, 3, false)
+	derive(PB2, 2, 2, false)
+	derive(PA4, 1, 4, false)
+	for _, l := range LatePrograms {
+		e.Progs[l].Late = true
+	}
 	fk := rootKey(0xf3)
 	add(&ProgInfo{Label: PForeign, Code: p2wpkh(fk.XPub().PublicKey()), P2W: true, key: &fk})
 	sh, err := vmutil.P2WSHProgram(crypto.Sha256(cl.OpTrue))
@@ -227,23 +249,168 @@ func (e *Env) buildTrunk() {
 
 // ---------------------------------------------------------------- a node with a wallet
 
-type WalletNode struct {
-	Env    *Env
-	N      *cl.Node
-	DB     dbm.DB
-	Mgr    *account.Manager
-	W      *wallet.Wallet
-	Keeper *account.VerifKeeper
-	AcctID [3]string // label -> account id (uuid, differs per wallet)
+// gateDB is the wallet's database with a turnstile in front of the one NewBatch call that opens
+// every Wallet.AttachBlock / Wallet.DetachBlock of the walletUpdater goroutine.  With the turnstile
+// closed the harness decides how many attach / detach operations the updater performs before the
+// node receives further blocks: a rescan (RescanBlocks) can be held half-way while the main chain
+// is reorganised.  Nothing else changes: every call is forwarded to the memory DB.
+type gateDB struct {
+	dbm.DB
+	mu       sync.Mutex
+	cond     *sync.Cond
+	watch    bool // look at the caller of NewBatch at all
+	stepping bool // turnstile closed: an updater operation needs a token
+	tokens   int
+	waiting  bool // the updater stands at the turnstile
+	passed   int  // operations let through (or seen) so far
+	// statistics read off the updater's operations
+	DetachBehind int // DetachBlock calls made while WorkHeight < BestHeight (a rescan was in progress)
+	AttachBehind int // AttachBlock calls made while WorkHeight < BestHeight
 }
 
-// NewWalletNode starts a node on LevelDB under dir and a wallet on a memory DB following it.
-func (e *Env) NewWalletNode(dir string) (*WalletNode, error) {
+func newGateDB() *gateDB {
+	g := &gateDB{DB: dbm.NewMemDB()}
+	g.cond = sync.NewCond(&g.mu)
+	return g
+}
+
+// updaterOp: "attach" / "detach" when the caller is Wallet.AttachBlock / DetachBlock running on a
+// walletUpdater goroutine (and not the nested batch of saveExternalAssetDefinition), "" otherwise.
+func updaterOp() string {
+	buf := make([]byte, 16384)
+	st := string(buf[:runtime.Stack(buf, false)])
+	if !strings.Contains(st, "(*Wallet).walletUpdater") || strings.Contains(st, "saveExternalAssetDefinition") {
+		return ""
+	}
+	switch {
+	case strings.Contains(st, "(*Wallet).DetachBlock"):
+		return "detach"
+	case strings.Contains(st, "(*Wallet).AttachBlock"):
+		return "attach"
+	}
+	return ""
+}
+
+func (g *gateDB) NewBatch() dbm.Batch {
+	g.mu.Lock()
+	if g.watch {
+		if op := updaterOp(); op != "" {
+			var st wallet.StatusInfo
+			if raw := g.DB.Get([]byte("walletInfo")); raw != nil && json.Unmarshal(raw, &st) == nil && st.WorkHeight < st.BestHeight {
+				if op == "detach" {
+					g.DetachBehind++
+				} else {
+					g.AttachBehind++
+				}
+			}
+			for g.stepping && g.tokens == 0 {
+				g.waiting = true
+				g.cond.Broadcast()
+				g.cond.Wait()
+			}
+			if g.stepping {
+				g.tokens--
+			}
+			g.waiting = false
+			g.passed++
+			g.cond.Broadcast()
+		}
+	}
+	g.mu.Unlock()
+	return g.DB.NewBatch()
+}
+
+// Hold closes the turnstile.
+func (g *gateDB) Hold() {
+	g.mu.Lock()
+	g.watch, g.stepping, g.tokens = true, true, 0
+	g.mu.Unlock()
+}
+
+// Release opens it for good.
+func (g *gateDB) Release() {
+	g.mu.Lock()
+	g.stepping, g.tokens = false, 0
+	g.cond.Broadcast()
+	g.mu.Unlock()
+}
+
+func (g *gateDB) state() (waiting bool, passed int) {
+	g.mu.Lock()
+	defer g.mu.Unlock()
+	return g.waiting, g.passed
+}
+
+// Allow lets the updater perform up to n attach / detach operations and returns when it stands at
+// the turnstile again or has nothing left to do (parked in walletBlockWaiter).  It returns the
+// number of operations performed.
+func (g *gateDB) Allow(n int, timeout time.Duration) (int, error) {
+	deadline := time.Now().Add(timeout)
+	done := 0
+	for {
+		// wait for the updater to arrive or to go idle
+		for {
+			w, _ := g.state()
+			if w {
+				break
+			}
+			if updatersIdle() {
+				if w2, _ := g.state(); !w2 && updatersIdle() {
+					return done, nil
+				}
+				continue
+			}
+			if time.Now().After(deadline) {
+				return done, fmt.Errorf("the wallet updater neither reached the turnstile nor went idle")
+			}
+			time.Sleep(200 * time.Microsecond)
+		}
+		if done == n {
+			return done, nil
+		}
+		g.mu.Lock()
+		before := g.passed
+		g.tokens = 1
+		g.cond.Broadcast()
+		for g.passed == before {
+			g.cond.Wait()
+		}
+		g.mu.Unlock()
+		done++
+	}
+}
+
+type WalletNode struct {
+	Env     *Env
+	N       *cl.Node
+	DB      dbm.DB
+	Gate    *gateDB
+	Mgr     *account.Manager
+	W       *wallet.Wallet
+	Keeper  *account.VerifKeeper
+	AcctID  [3]string // label -> account id (uuid, differs per wallet)
+	Learned map[int]bool // late programs this wallet has registered
+
+	// transaction pool messages: the node's pool posts them on the node's dispatcher; the harness
+	// queues them (one batch per node event) and hands them to the wallet's own dispatcher, in order,
+	// when the case says so - the delay of wallet.memPoolTxQueryLoop is the scheduler's in reality
+	poolSub *event.Subscription
+	wdisp   *event.Dispatcher
+	queue   [][]protocol.TxMsgEvent
+}
+
+// NewWalletNode starts a node on LevelDB under dir and a wallet on a memory DB following it.  The
+// wallet registers the late programs in learned (in the order of LatePrograms) from the start.
+func (e *Env) NewWalletNode(dir string, learned ...int) (*WalletNode, error) {
 	n, err := cl.NewNode(dir)
 	if err != nil {
 		return nil, err
 	}
-	wn := &WalletNode{Env: e, N: n, DB: dbm.NewMemDB()}
+	gate := newGateDB()
+	wn := &WalletNode{Env: e, N: n, DB: gate, Gate: gate, Learned: map[int]bool{}, wdisp: event.NewDispatcher()}
+	if wn.poolSub, err = n.Disp.Subscribe(protocol.TxMsgEvent{}); err != nil {
+		return nil, err
+	}
 	wn.Mgr = account.NewManager(wn.DB, n.Chain)
 	for a := 1; a <= 2; a++ {
 		acc, err := wn.Mgr.Create([]chainkd.XPub{e.Root[a-1].XPub()}, 1, fmt.Sprintf("acct%d", a), signers.BIP0044)
@@ -253,16 +420,20 @@ func (e *Env) NewWalletNode(dir string) (*WalletNode, error) {
 		wn.AcctID[a] = acc.ID
 	}
 	for _, l := range []int{PA1, PA2, PAChange, PB1} {
-		p := e.Progs[l]
-		cp, err := wn.Mgr.CreateAddress(wn.AcctID[p.Acct], p.Change)
-		if err != nil {
+		if err := wn.register(l); err != nil {
 			return nil, err
 		}
-		if string(cp.ControlProgram) != string(p.Code) || cp.KeyIndex != p.Index || cp.Change != p.Change {
-			return nil, fmt.Errorf("account manager derived another program for label %d", l)
+	}
+	for _, l := range LatePrograms {
+		for _, x := range learned {
+			if x == l {
+				if err := wn.Learn(l); err != nil {
+					return nil, err
+				}
+			}
 		}
 	}
-	wn.W, err = wallet.NewWallet(wn.DB, wn.Mgr, asset.NewRegistry(wn.DB, n.Chain), contract.NewRegistry(wn.DB), nil, n.Chain, n.Disp, false)
+	wn.W, err = wallet.NewWallet(wn.DB, wn.Mgr, asset.NewRegistry(wn.DB, n.Chain), contract.NewRegistry(wn.DB), nil, n.Chain, wn.wdisp, false)
 	if err != nil {
 		return nil, err
 	}
@@ -270,11 +441,50 @@ func (e *Env) NewWalletNode(dir string) (*WalletNode, error) {
 	return wn, nil
 }
 
-// updatersIdle: every walletUpdater goroutine of this process is parked in walletBlockWaiter's
-// select (the only blocking select of the updater).  Read off the goroutine dump: there is no other
-// way to know that an updater has finished its loop iteration and will not look at the chain again
-// before the next block arrives.
-func updatersIdle() bool {
+func (wn *WalletNode) register(l int) error {
+	p := wn.Env.Progs[l]
+	cp, err := wn.Mgr.CreateAddress(wn.AcctID[p.Acct], p.Change)
+	if err != nil {
+		return err
+	}
+	if string(cp.ControlProgram) != string(p.Code) || cp.KeyIndex != p.Index || cp.Change != p.Change {
+		return fmt.Errorf("account manager derived another program for label %d (index %d, expected %d)", l, cp.KeyIndex, p.Index)
+	}
+	return nil
+}
+
+// Learn registers a late program (Manager.CreateAddress hands out the account's next address).
+func (wn *WalletNode) Learn(l int) error {
+	if wn.Learned[l] {
+		return nil
+	}
+	if err := wn.register(l); err != nil {
+		return err
+	}
+	wn.Learned[l] = true
+	return nil
+}
+
+// LearnedList: the late programs registered so far, in learning order.
+func (wn *WalletNode) LearnedList() []int {
+	var ls []int
+	for _, l := range LatePrograms {
+		if wn.Learned[l] {
+			ls = append(ls, l)
+		}
+	}
+	return ls
+}
+
+// Owns: the wallet has registered the program.
+func (wn *WalletNode) Owns(prog int) bool {
+	return (prog >= PA1 && prog <= PB1) || wn.Learned[prog]
+}
+
+// goroutinesParked: every goroutine of this process running fn is blocked in one of the given wait
+// states (read off the goroutine dump: there is no other way to know that a loop of the wallet has
+// finished its iteration and will not act again before the next event arrives).
+func goroutinesParked(fn string, states ...string) bool {
 	buf := make([]byte, 1<<20)
 	for {
 		n := runtime.Stack(buf, true)
@@ -284,15 +494,85 @@ func updatersIdle() bool {
 		}
 		buf = make([]byte, 2*len(buf))
 	}
-	for _, g := range strings.Split(string(buf), "\n\n") {
-		if !strings.Contains(g, "(*Wallet).walletUpdater") {
+	for _, g := range bytes.Split(buf, []byte("\n\n")) {
+		if !bytes.Contains(g, []byte(fn)) {
 			continue
 		}
-		if !strings.Contains(g[:strings.IndexByte(g+"\n", '\n')], "[select") {
+		head := g
+		if i := bytes.IndexByte(g, '\n'); i >= 0 {
+			head = g[:i]
+		}
+		ok := false
+		for _, s := range states {
+			if bytes.Contains(head, []byte("["+s)) {
+				ok = true
+			}
+		}
+		if !ok {
 			return false
 		}
 	}
 	return true
+}
+
+// updatersIdle: every walletUpdater goroutine of this process is parked in walletBlockWaiter's
+// select (the only blocking select of the updater).
+func updatersIdle() bool { return goroutinesParked("(*Wallet).walletUpdater", "select") }
+
+// poolLoopsIdle: every memPoolTxQueryLoop is blocked on its (empty) subscription channel.
+func poolLoopsIdle() bool {
+	return goroutinesParked("(*Wallet).memPoolTxQueryLoop", "select", "chan receive")
+}
+
+// CollectPoolMsgs moves the messages the node's pool has posted since the last call into a new
+// batch of the queue (the posts of one node event come in map order: a batch is forwarded as a whole).
+func (wn *WalletNode) CollectPoolMsgs() int {
+	var batch []protocol.TxMsgEvent
+	for {
+		select {
+		case ev := <-wn.poolSub.Chan():
+			if m, ok := ev.Data.(protocol.TxMsgEvent); ok {
+				batch = append(batch, m)
+			}
+			continue
+		default:
+		}
+		break
+	}
+	if len(batch) > 0 {
+		wn.queue = append(wn.queue, batch)
+	}
+	return len(batch)
+}
+
+// QueuedBatches: batches of pool messages the wallet has not seen yet.
+func (wn *WalletNode) QueuedBatches() int { return len(wn.queue) }
+
+// ForwardPoolMsgs hands the oldest k batches (k < 0: all) to the wallet and waits until
+// wallet.memPoolTxQueryLoop has handled them.
+func (wn *WalletNode) ForwardPoolMsgs(k int, timeout time.Duration) (int, error) {
+	if k < 0 || k > len(wn.queue) {
+		k = len(wn.queue)
+	}
+	n := 0
+	for _, b := range wn.queue[:k] {
+		for _, m := range b {
+			wn.wdisp.Post(m)
+			n++
+		}
+	}
+	wn.queue = wn.queue[k:]
+	if n == 0 {
+		return 0, nil
+	}
+	deadline := time.Now().Add(timeout)
+	for !(poolLoopsIdle() && poolLoopsIdle()) {
+		if time.Now().After(deadline) {
+			return n, fmt.Errorf("the wallet did not handle the pool messages")
+		}
+		time.Sleep(200 * time.Microsecond)
+	}
+	return n, nil
 }
 
 // Sync waits until the wallet has caught up with the node's best block (when expect is set) and
@@ -367,9 +647,9 @@ func (wn *WalletNode) List() []Rec {
 			rs = append(rs, wn.project(!contractSpace, u))
 		}
 	}
-	mature := wn.matureSet()
+	mature := wn.matureSet(false)
 	for i := range rs {
-		rs[i].Usable = wn.usable(rs[i], mature)
+		rs[i].Usable = wn.usable(rs[i].ID, false, mature)
 	}
 	sort.Slice(rs, func(i, j int) bool {
 		if rs[i].Std != rs[j].Std {
@@ -380,14 +660,15 @@ func (wn *WalletNode) List() []Rec {
 	return rs
 }
 
-// matureSet: the utxos the keeper's findUtxos offers for spending, for every (account, vote) of the vocabulary.
-func (wn *WalletNode) matureSet() map[bc.Hash]bool {
-	m := map[bc.Hash]bool{}
+// matureSet: the utxos the keeper's findUtxos offers for spending, for every (account, vote) of
+// the vocabulary, without or with the unconfirmed ones.
+func (wn *WalletNode) matureSet(useUnconfirmed bool) map[bc.Hash]*account.UTXO {
+	m := map[bc.Hash]*account.UTXO{}
 	for a := 1; a <= 2; a++ {
 		for _, vote := range [][]byte{nil, wn.Env.VoteTo} {
-			us, _ := wn.Keeper.VerifFindUtxos(wn.AcctID[a], consensus.BTMAssetID, false, vote)
+			us, _ := wn.Keeper.VerifFindUtxos(wn.AcctID[a], consensus.BTMAssetID, useUnconfirmed, vote)
 			for _, u := range us {
-				m[u.OutputID] = true
+				m[u.OutputID] = u
 			}
 		}
 	}
@@ -395,14 +676,57 @@ func (wn *WalletNode) matureSet() map[bc.Hash]bool {
 }
 
 // usable: reported by findUtxos, or accepted by ReserveParticular (the two places of the maturity filter).
-func (wn *WalletNode) usable(r Rec, mature map[bc.Hash]bool) bool {
-	if mature[r.ID] {
+func (wn *WalletNode) usable(id bc.Hash, useUnconfirmed bool, mature map[bc.Hash]*account.UTXO) bool {
+	if mature[id] != nil {
 		return true
 	}
-	res, err := wn.Keeper.ReserveParticular(r.ID, false, time.Now().Add(time.Minute))
-	if err != nil {
-		return false
+	return wn.reservable(id, useUnconfirmed) != nil
+}
+
+// reservable: the utxo ReserveParticular hands out for the output id (nil: refused).
+func (wn *WalletNode) reservable(id bc.Hash, useUnconfirmed bool) *account.UTXO {
+	res, err := wn.Keeper.ReserveParticular(id, useUnconfirmed, time.Now().Add(time.Minute))
+	if err != nil || len(res.UTXOs) != 1 {
+		return nil
 	}
 	wn.Keeper.Cancel(res.ID)
-	return true
+	return res.UTXOs[0]
+}
+
+// Offer: what the keeper hands out for one output id when the caller accepts unconfirmed utxos
+// (useUnconfirmed = true).
+type Offer struct {
+	ID      bc.Hash
+	Find    *account.UTXO // the utxo findUtxos(…, true, …) lists, nil when it lists none
+	Reserve *account.UTXO // the utxo ReserveParticular(id, true, …) reserves, nil when it refuses
+	InDB    bool          // the wallet holds a confirmed record of the output
+	InMap   bool          // the keeper's unconfirmed map holds a copy of the output
+}
+
+// OffersUnconfirmed queries the keeper with useUnconfirmed = true for every output the wallet's db
+// or the keeper's unconfirmed map knows; sorted by output id.
+func (wn *WalletNode) OffersUnconfirmed(list []Rec) []Offer {
+	m := map[bc.Hash]*Offer{}
+	get := func(id bc.Hash) *Offer {
+		if m[id] == nil {
+			m[id] = &Offer{ID: id}
+		}
+		return m[id]
+	}
+	for _, r := range list {
+		get(r.ID).InDB = true
+	}
+	for _, u := range wn.Keeper.ListUnconfirmed() {
+		get(u.OutputID).InMap = true
+	}
+	for id, u := range wn.matureSet(true) {
+		get(id).Find = u
+	}
+	var os []Offer
+	for id, o := range m {
+		o.Reserve = wn.reservable(id, true)
+		os = append(os, *o)
+	}
+	sort.Slice(os, func(i, j int) bool { return os[i].ID.String() < os[j].ID.String() })
+	return os
 }
